@@ -16,6 +16,8 @@ pub mod model {
     pub static mut FILL_CALLS: usize = 0;
     /// draws made through any other entry point (next_u32 / next_u64 / gen)
     pub static mut OTHER_DRAWS: usize = 0;
+    /// fill_bytes calls served by a seeded (deterministic) generator
+    pub static mut SEEDED_DRAWS: usize = 0;
 
     #[cfg(kani)]
     pub fn byte() -> u8 { kani::any() }
@@ -124,5 +126,50 @@ impl RngCore for ThreadRng {
 
 pub fn thread_rng() -> ThreadRng { ThreadRng::default() }
 
-pub mod rngs { pub use crate::ThreadRng; }
-pub mod prelude { pub use crate::{thread_rng, Rng, RngCore, ThreadRng}; }
+/// seedable generator: DETERMINISTIC function of its seed (that is its contract); output bytes are
+/// seed[i % 32] ^ counter, enough for "same seed => same stream" to be visible to a harness
+#[derive(Clone, Debug)]
+pub struct StdRng { seed: [u8; 32], ctr: u64 }
+pub trait SeedableRng: Sized {
+    type Seed;
+    fn from_seed(seed: Self::Seed) -> Self;
+    fn from_entropy() -> Self;
+    fn from_rng<R: RngCore>(rng: R) -> Result<Self, Error>;
+}
+#[derive(Debug)]
+pub struct Error;
+impl SeedableRng for StdRng {
+    type Seed = [u8; 32];
+    fn from_seed(seed: [u8; 32]) -> Self { StdRng { seed, ctr: 0 } }
+    fn from_entropy() -> Self { let mut s = [0u8; 32]; OsRng.fill_bytes(&mut s); StdRng { seed: s, ctr: 0 } }
+    fn from_rng<R: RngCore>(mut rng: R) -> Result<Self, Error> { let mut s = [0u8; 32]; rng.fill_bytes(&mut s); Ok(StdRng { seed: s, ctr: 0 }) }
+}
+impl RngCore for StdRng {
+    fn next_u32(&mut self) -> u32 { let mut b = [0u8; 4]; self.fill_bytes(&mut b); u32::from_le_bytes(b) }
+    fn next_u64(&mut self) -> u64 { let mut b = [0u8; 8]; self.fill_bytes(&mut b); u64::from_le_bytes(b) }
+    fn fill_bytes(&mut self, dest: &mut [u8]) {
+        #[allow(static_mut_refs)]
+        unsafe { model::SEEDED_DRAWS += 1; }
+        let mut i = 0;
+        while i < dest.len() {
+            dest[i] = self.seed[(self.ctr % 32) as usize] ^ (self.ctr as u8);
+            self.ctr = self.ctr.wrapping_add(1);
+            i += 1;
+        }
+    }
+}
+/// the operating system's generator: arbitrary bytes, logged separately from ThreadRng
+#[derive(Clone, Copy, Debug, Default)]
+pub struct OsRng;
+impl RngCore for OsRng {
+    fn next_u32(&mut self) -> u32 { #[allow(static_mut_refs)] unsafe { model::OTHER_DRAWS += 1; } model::word() }
+    fn next_u64(&mut self) -> u64 { #[allow(static_mut_refs)] unsafe { model::OTHER_DRAWS += 1; } ((model::word() as u64) << 32) | model::word() as u64 }
+    fn fill_bytes(&mut self, dest: &mut [u8]) {
+        #[allow(static_mut_refs)]
+        unsafe { model::OTHER_DRAWS += 1; }
+        let mut i = 0;
+        while i < dest.len() { dest[i] = model::byte(); i += 1; }
+    }
+}
+pub mod rngs { pub use crate::{OsRng, StdRng, ThreadRng}; }
+pub mod prelude { pub use crate::{thread_rng, Rng, RngCore, SeedableRng, StdRng, ThreadRng}; }
